@@ -740,6 +740,13 @@ def opParsers (pk : Pkg) (head astToks pkgToks : List String) : String :=
     (match parseAstDecl pk name fuel, parsePkgDecl pk name fuel, parseNode astToks with
      | some ma, some mp, some (ra, _) =>
        let realPkg : Option Node := if pkgToks == ["-"] then none else (parseNode pkgToks).map (·.1)
+       -- C13 itself: both real parsers must give the same tree
+       let realDiffer : Bool := match realPkg with | some rp => !(ra == rp) | none => false
+       if realDiffer then
+         (if !(ma == mp) then "known parser-typename-qualification"
+          else "dev-viol the go/ast and go/types parsers dump different trees for this declaration: " ++
+            ((realPkg.bind fun rp => firstNodeDiff ra rp name).getD ""))
+       else
        match firstNodeDiff ma ra name with
        | some d => "dev-ok ast-model: " ++ d
        | none =>
@@ -748,9 +755,6 @@ def opParsers (pk : Pkg) (head astToks pkgToks : List String) : String :=
           | some rp =>
             match firstNodeDiff mp rp name with
             | some d => "dev-ok types-model: " ++ d
-            | none =>
-              -- C13: both parsers must give the same tree
-              if ra == rp then "agree"
-              else "known parser-typename-qualification")
+            | none => "agree")
      | _, _, _ => "skip unresolved-input")
   | _ => "skip bad-record"
